@@ -424,7 +424,7 @@ theorem step_inv (M : MathOps α) (vs : List (V2 α)) (tol : α) (B : V2 α → 
           · left; exact ⟨c, by simp only [mem_qInsert]; tauto, hin⟩
         · right; simp only []; linarith
 
-theorem run_inv (M : MathOps α) (vs : List (V2 α)) (tol : α) (B : V2 α → Prop)
+theorem polylabel_run_inv (M : MathOps α) (vs : List (V2 α)) (tol : α) (B : V2 α → Prop)
     (hb : CellBound M vs) : ∀ (fuel : Nat) (st : PState α), PoleInv M vs tol B st →
       PoleInv M vs tol B (run M vs tol fuel st) ∧ st.best.d ≤ (run M vs tol fuel st).best.d := by
   intro fuel
